@@ -276,7 +276,7 @@ func (fr *Frame) encodeCall(c *ssa.Call, st *State) {
 	}
 	var cs *CallSite
 	{
-		cs = &CallSite{instr: c, names: callNames(c), reach: st.alive, args: args, recv: recv, pre: st.clone(), block: c.Block(), depth: fr.depth}
+		cs = &CallSite{instr: c, names: callNames(c), reach: st.alive, args: args, recv: recv, pre: st.clone(), block: c.Block(), depth: fr.depth, nline: len(fe.pre.body)}
 		if !cc.IsInvoke() && cc.StaticCallee() != nil && cc.StaticCallee().Signature.Recv() != nil && len(args) > 0 {
 			cs.recv = &args[0]
 		}
